@@ -1,4 +1,8 @@
 #!/bin/sh
-# check_against.sh <repo-tree> <property> <tier>: run a check against another tree (seeded changes)
+# check_against.sh <repo-tree> <property> <tier>: run a check against another tree
+# (seeded changes). Replays and evidence of such runs go to $VERIF_OUTDIR
+# (default /tmp/vout.<tree name>), never into /verif/evidence.
 T=$1; shift
+: ${VERIF_OUTDIR:=/tmp/vout.$(basename $T)}
+export VERIF_OUTDIR
 VERIF_REPO=$T exec /verif/check "$@"
